@@ -358,6 +358,23 @@ func workloadTight(seed int64, iters int) [][]byte {
 				outs = append(outs, UeauCommon.GetKDFValue(kenc[:], fc, p0, UeauCommon.KDFLen(p0), p1, UeauCommon.KDFLen(p1)))
 			}
 		}
+		if i%4 == 2 {
+			// the Milenage functions directly (f1 / f1* and f2..f5*), under this goroutine's own K / OPc / RAND
+			macA, macS := make([]byte, 8), make([]byte, 8)
+			res, ck, ik, ak, aks := make([]byte, 8), make([]byte, 16), make([]byte, 16), make([]byte, 6), make([]byte, 6)
+			rnd := []byte{byte(seed), byte(i), byte(i >> 8), 3, 4, 5, 6, 7, 8, 9, 10, 11, 12, 13, 14, 15}
+			acc := make([]byte, 16)
+			for burst := 0; burst < 24; burst++ { // a burst of closely spaced calls; the outputs are folded into one record
+				rnd[3] = byte(burst)
+				milenage.F1(kint[:], kenc[:], rnd, []byte{0, 0, byte(seed), byte(i >> 8), byte(i), 1}, []byte{0x80, 0}, macA, macS)
+				milenage.F2345(kint[:], kenc[:], rnd, res, ck, ik, ak, aks)
+				for x := 0; x < 8; x++ {
+					acc[x] ^= macA[x] + byte(burst)
+					acc[8+x] ^= macS[x] ^ res[x] ^ ck[x] ^ ik[x+8]
+				}
+			}
+			outs = append(outs, acc, macA, macS, res, ck, ik, ak, aks)
+		}
 		if i%16 == 5 {
 			var autn [16]byte
 			copy(autn[:], msg)
